@@ -179,7 +179,7 @@ class Request(HTTPConnection):
                 return json.loads(
                     data.decode(self.content_type.options.get("charset", "utf8"))
                 )
-            except (json.JSONDecodeError, UnicodeDecodeError, LookupError) as exc:
+            except (ValueError, LookupError, RecursionError) as exc:
                 raise MalformedJSON(str(exc)) from None
 
         raise UnsupportedMediaType("application/json")
